@@ -252,6 +252,10 @@ func mustPassFromBlock(first ssa.Instruction, pass func(ssa.Instruction) bool) (
 	if pass(first) {
 		return true, nil
 	}
+	// the starting instruction is itself on the path: a return there has passed nothing
+	if r, ok := first.(*ssa.Return); ok && r.Block() != r.Parent().Recover {
+		return false, r
+	}
 	return mustPass(first, pass, nil)
 }
 
